@@ -41,6 +41,7 @@ MODULES = {
     'C18': ['contracts.wrappers'],
     'C09': ['contracts.c09', 'contracts.pit_layers'],
     'C14': ['contracts.c14'],
+    'C20': ['contracts.c20'],
     'C07': ['contracts.c07', 'contracts.wrappers'],
 }
 
